@@ -38,6 +38,7 @@ type Run struct {
 	baseNextObj int
 	initNextObj int
 	wallLimit   time.Duration
+	thorough    bool
 
 	// concrete mode
 	concrete  bool
